@@ -168,8 +168,13 @@ class ExcelCompiler:
             if self.cycles:
                 def _eval(cell, cse_array_address=None):
                     cell.start_calcs()
-                    return eval_ctx(
-                        cell.formula, cse_array_address=cse_array_address)
+                    try:
+                        return eval_ctx(
+                            cell.formula, cse_array_address=cse_array_address)
+                    except Exception:
+                        # the calculation of the cell is abandoned
+                        cell.wip = False
+                        raise
 
             else:
                 def _eval(cell, cse_array_address=None):
@@ -1130,8 +1135,11 @@ class _CellRange(_CellBase):
     def __iter__(self):
         return flatten(self.addresses)
 
+    # Ranges are not tracked by the iterative calculation
+    wip = False
+
     def start_calcs(self):
-        """Ranges are not tracked by the iterative calculation"""
+        pass
 
     @property
     def serialize(self):
